@@ -87,20 +87,20 @@ structure Keep (m m' : M) : Prop where
   job0 : m'.job0 = m.job0
   faults : m'.faults = m.faults
   j : J m → J m'
+  dd : ∀ b, DD m b → DD m' b
 
 structure Frame (m m' : M) : Prop extends Keep m m' where
   env : m'.env = m.env
   rr : ∀ b, RR m b → RR m' b
-  dd : ∀ b, DD m b → DD m' b
 
-theorem Keep.refl (m : M) : Keep m m := ⟨rfl, rfl, rfl, id⟩
-theorem Frame.refl (m : M) : Frame m m := ⟨Keep.refl m, rfl, fun _ h => h, fun _ h => h⟩
+theorem Keep.refl (m : M) : Keep m m := ⟨rfl, rfl, rfl, id, fun _ h => h⟩
+theorem Frame.refl (m : M) : Frame m m := ⟨Keep.refl m, rfl, fun _ h => h⟩
 
 theorem Keep.trans {a b c : M} (h1 : Keep a b) (h2 : Keep b c) : Keep a c :=
-  ⟨h2.evicts.trans h1.evicts, h2.job0.trans h1.job0, h2.faults.trans h1.faults, fun h => h2.j (h1.j h)⟩
+  ⟨h2.evicts.trans h1.evicts, h2.job0.trans h1.job0, h2.faults.trans h1.faults, fun h => h2.j (h1.j h), fun b h => h2.dd b (h1.dd b h)⟩
 
 theorem Frame.trans {a b c : M} (h1 : Frame a b) (h2 : Frame b c) : Frame a c :=
-  ⟨h1.toKeep.trans h2.toKeep, h2.env.trans h1.env, fun b h => h2.rr b (h1.rr b h), fun b h => h2.dd b (h1.dd b h)⟩
+  ⟨h1.toKeep.trans h2.toKeep, h2.env.trans h1.env, fun b h => h2.rr b (h1.rr b h)⟩
 
 /-- a stage result: stops with Keep, or falls through with Frame -/
 def Res.Spec (m : M) (r : Res) : Prop :=
@@ -127,35 +127,31 @@ theorem Res.Spec.bind {m : M} {r : Res} {f : M → Res} (h : r.Spec m) (hf : ∀
 
 /-! ### primitives -/
 
-theorem frame_write (m : M) (k : ActK) (a : Nat) : Frame m (m.write k a).2 :=
-  ⟨⟨rfl, rfl, rfl, id⟩, rfl, fun _ h => h, fun _ h => h⟩
-
 theorem frame_setStatus_noconds (m : M) (f : Status → Status) (hf : ∀ s, (f s).conds = s.conds) :
     Frame m (m.setStatus f) :=
-  ⟨⟨rfl, rfl, rfl, fun h => ⟨by simp only [M.setStatus, hf]; exact h.1, h.2⟩⟩, rfl, fun _ h => h, fun _ h => h⟩
+  ⟨⟨rfl, rfl, rfl, fun h => ⟨by simp only [M.setStatus, hf]; exact h.1, h.2⟩, fun _ h => h⟩, rfl, fun _ h => h⟩
 
 theorem frame_setConds (m : M) (c : Cond) (hc : CondOK c) :
     Frame m (m.setStatus fun s => { s with conds := (setCond m.mem.status.conds c).1 }) :=
-  ⟨⟨rfl, rfl, rfl, fun h => ⟨WFp_setCond h.1 hc, h.2⟩⟩, rfl, fun _ h => h, fun _ h => h⟩
+  ⟨⟨rfl, rfl, rfl, fun h => ⟨WFp_setCond h.1 hc, h.2⟩, fun _ h => h⟩, rfl, fun _ h => h⟩
 
 theorem frame_logw (m : M) (k : ActK) (a : Nat) : Frame m (m.logw k a) :=
-  ⟨⟨rfl, rfl, rfl, id⟩, rfl, fun _ h => h, fun _ h => h⟩
+  ⟨⟨rfl, rfl, rfl, id, fun _ h => h⟩, rfl, fun _ h => h⟩
 
 theorem frame_statusUpdate (m : M) : Frame m m.statusUpdate.2 := by
   unfold M.statusUpdate
   split
-  · exact ⟨⟨rfl, rfl, rfl, fun h => ⟨h.1, h.1⟩⟩, rfl, fun b h => ⟨h.2, h.2⟩, fun b h => ⟨h.2, h.2⟩⟩
+  · exact ⟨⟨rfl, rfl, rfl, fun h => ⟨h.1, h.1⟩, fun b h => ⟨h.2, h.2⟩⟩, rfl, fun b h => ⟨h.2, h.2⟩⟩
   · exact frame_logw _ _ _
 
 theorem frame_jobUpdate (m : M) : Frame m m.jobUpdate.2 := by
   unfold M.jobUpdate
   split
-  · exact ⟨⟨rfl, rfl, rfl, fun h => ⟨h.2, h.2⟩⟩, rfl, fun b h => ⟨h.1, h.1⟩, fun b h => ⟨h.1, h.1⟩⟩
+  · exact ⟨⟨rfl, rfl, rfl, fun h => ⟨h.2, h.2⟩, fun b h => ⟨h.1, h.1⟩⟩, rfl, fun b h => ⟨h.1, h.1⟩⟩
   · exact frame_logw _ _ _
 
 theorem frame_updateCondition (m : M) (c : Cond) (hc : CondOK c) : Frame m (updateCondition m c).2 := by
   unfold updateCondition
-  simp only []
   split
   · exact ((frame_setConds m c hc).trans
       (frame_setStatus_noconds _ (fun s => { s with status := c.ty, reason := c.reason }) (fun _ => rfl))).trans (frame_statusUpdate _)
@@ -177,12 +173,12 @@ namespace KoordVerif.C17
 
 /-! ### stages -/
 
-theorem ok1 : CondOK ⟨CT.resvCreated, b, r, g⟩ := Or.inl (by decide)
-theorem ok2 : CondOK ⟨CT.resvScheduled, b, r, g⟩ := Or.inl (by decide)
-theorem ok5 : CondOK ⟨CT.podScheduled, b, r, g⟩ := Or.inl (by decide)
-theorem ok6 : CondOK ⟨CT.podBound, b, r, g⟩ := Or.inl (by decide)
-theorem ok7 : CondOK ⟨CT.boundPodReady, b, r, g⟩ := Or.inl (by decide)
-theorem ok8 : CondOK ⟨CT.resvBound, b, r, g⟩ := Or.inl (by decide)
+theorem ok1 : CondOK ⟨CT.resvCreated, b, r, g⟩ := Or.inl (by show CT.resvCreated ≠ CT.eviction; decide)
+theorem ok2 : CondOK ⟨CT.resvScheduled, b, r, g⟩ := Or.inl (by show CT.resvScheduled ≠ CT.eviction; decide)
+theorem ok5 : CondOK ⟨CT.podScheduled, b, r, g⟩ := Or.inl (by show CT.podScheduled ≠ CT.eviction; decide)
+theorem ok6 : CondOK ⟨CT.podBound, b, r, g⟩ := Or.inl (by show CT.podBound ≠ CT.eviction; decide)
+theorem ok7 : CondOK ⟨CT.boundPodReady, b, r, g⟩ := Or.inl (by show CT.boundPodReady ≠ CT.eviction; decide)
+theorem ok8 : CondOK ⟨CT.resvBound, b, r, g⟩ := Or.inl (by show CT.resvBound ≠ CT.eviction; decide)
 theorem ok4t : CondOK ⟨CT.eviction, true, r, g⟩ := Or.inr (Or.inl rfl)
 theorem ok4e : CondOK ⟨CT.eviction, b, Rs.evicting, g⟩ := Or.inr (Or.inr rfl)
 
@@ -192,10 +188,9 @@ theorem keep_deleteReservation (m : M) : Keep m (deleteReservation m).2 := by
   · exact Keep.refl m
   · split
     · exact Keep.refl m
-    · simp only [M.write]
-      split
-      · exact ⟨rfl, rfl, rfl, id⟩
-      · exact ⟨rfl, rfl, rfl, id⟩
+    · split
+      · exact ⟨rfl, rfl, rfl, id, fun _ h => h⟩
+      · exact ⟨rfl, rfl, rfl, id, fun _ h => h⟩
 
 theorem spec_abortIfTimeout (m : M) : (abortIfTimeout m).Spec m := by
   unfold abortIfTimeout
@@ -203,8 +198,7 @@ theorem spec_abortIfTimeout (m : M) : (abortIfTimeout m).Spec m := by
   · exact Frame.refl m
   · split
     · exact Frame.refl m
-    · simp only []
-      split
+    · split
       · exact keep_deleteReservation m
       · exact (keep_deleteReservation m).trans (frame_abortWith _ _).toKeep
 
@@ -214,8 +208,7 @@ theorem abortIfTimeout_cont {m m' : M} (h : abortIfTimeout m = .cont m') : m' = 
   · cases h; rfl
   · split at h
     · cases h; rfl
-    · simp only [] at h
-      split at h <;> cases h
+    · split at h <;> cases h
 
 theorem spec_preparePending (m : M) : (preparePending m).Spec m := by
   unfold preparePending
@@ -227,12 +220,12 @@ theorem spec_preparePending (m : M) : (preparePending m).Spec m := by
       · exact (frame_abortWith _ _).toKeep
       · rename_i p _
         have h1 : Frame m (m.setSpec fun s => { s with podUID := p.uid }) :=
-          ⟨⟨rfl, rfl, rfl, id⟩, rfl, fun _ h => h, fun _ h => h⟩
+          ⟨⟨rfl, rfl, rfl, id, fun _ h => h⟩, rfl, fun _ h => h⟩
         have h2 := h1.trans (frame_jobUpdate _)
-        simp only []
         split
-        · exact h2.toKeep
-        · exact spec_okOr _ ((h2.trans (frame_setStatus_noconds _ (fun s => { s with phase := Ph.running }) (fun _ => rfl))).trans (frame_statusUpdate _))
+        · rename_i heq; rw [heq] at h2; exact h2.toKeep
+        · rename_i heq; rw [heq] at h2
+          exact spec_okOr _ ((h2.trans (frame_setStatus_noconds _ (fun s => { s with phase := Ph.running }) (fun _ => rfl))).trans (frame_statusUpdate _))
 
 theorem spec_boundByOther (m : M) (pod : Option Pod) : (boundByOther m pod).Spec m := by
   unfold boundByOther
@@ -241,10 +234,11 @@ theorem spec_boundByOther (m : M) (pod : Option Pod) : (boundByOther m pod).Spec
   · split
     · exact (frame_abortWith _ _).toKeep
     · split
-      · simp only []
-        split
+      · split
         · exact (frame_abortWith _ _).toKeep
-        · exact Frame.refl m
+        · split
+          · exact Frame.refl m
+          · exact (frame_abortWith _ _).toKeep
       · exact Frame.refl m
 
 theorem boundByOther_cont {m m' : M} {pod : Option Pod} (h : boundByOther m pod = .cont m') : m' = m := by
@@ -254,47 +248,43 @@ theorem boundByOther_cont {m m' : M} {pod : Option Pod} (h : boundByOther m pod 
   · split at h
     · cases h
     · split at h
-      · simp only [] at h
-        split at h
+      · split at h
         · cases h
-        · cases h; rfl
+        · split at h
+          · cases h; rfl
+          · cases h
       · cases h; rfl
 
 theorem keep_createReservation (m : M) : Keep m (createReservation m) := by
   unfold createReservation
   split
   · exact (frame_abortWith _ _).toKeep
-  · simp only [M.write]
-    split
+  · split
     · exact (frame_logw m _ _).toKeep.trans (frame_updateCondition _ _ ok1).toKeep
     · split
       · have h1 : Keep (m.logw .resvCreate) ((m.logw .resvCreate).setSpec fun s => { s with resvRef := true }) :=
-          ⟨rfl, rfl, rfl, id⟩
+          ⟨rfl, rfl, rfl, id, fun _ h => h⟩
         exact ((frame_logw m _ _).toKeep.trans h1).trans (frame_jobUpdate _).toKeep
-      · rename_i p _ _
-        have h0 : Keep m ({ m.logw .resvCreate with env := { (m.logw .resvCreate).env with resv := some (newResv p) } } : M) :=
-          ⟨rfl, rfl, rfl, id⟩
-        have h1 : Keep ({ m.logw .resvCreate with env := { (m.logw .resvCreate).env with resv := some (newResv p) } } : M)
-            (({ m.logw .resvCreate with env := { (m.logw .resvCreate).env with resv := some (newResv p) } } : M).setSpec fun s => { s with resvRef := true }) :=
-          ⟨rfl, rfl, rfl, id⟩
-        exact (h0.trans h1).trans (frame_jobUpdate _).toKeep
+      · refine Keep.trans ?_ (frame_jobUpdate _).toKeep
+        exact ⟨rfl, rfl, rfl, id, fun _ h => h⟩
 
 /-- `setReservationOrder` may label the reservation: everything but `env.resv.orderLabel` is kept -/
 structure FrameR (m m' : M) : Prop extends Keep m m' where
   rr : ∀ b, RR m b → RR m' b
 
-theorem setReservationOrder_spec (m : M) :
-    match setReservationOrder m with
-    | .stop m' => Keep m m'
-    | .cont m' => FrameR m m' := by
+def Res.SpecR (m : M) (r : Res) : Prop :=
+  match r with
+  | .stop m' => Keep m m'
+  | .cont m' => FrameR m m'
+
+theorem setReservationOrder_spec (m : M) : (setReservationOrder m).SpecR m := by
   unfold setReservationOrder
   split
   · exact Keep.refl m
   · split
     · exact ⟨Keep.refl m, fun _ h => h⟩
-    · simp only [M.write]
-      split
-      · exact ⟨⟨rfl, rfl, rfl, id⟩, fun _ h => h⟩
+    · split
+      · exact ⟨⟨rfl, rfl, rfl, id, fun _ h => h⟩, fun _ h => h⟩
       · exact (frame_logw m _ _).toKeep
 
 theorem spec_syncScheduleFailed (m : M) (r : Resv) : (syncScheduleFailed m r).Spec m := by
@@ -311,10 +301,9 @@ theorem spec_preemptGate (m : M) (r : Resv) : (preemptGate m r).Spec m := by
   · exact Frame.refl m
   · split
     · exact (frame_abortWith _ _).toKeep
-    · simp only []
-      split
-      · exact ⟨⟨rfl, rfl, rfl, id⟩, rfl, fun _ h => h, fun _ h => h⟩
-      · exact ⟨rfl, rfl, rfl, id⟩
+    · split
+      · exact ⟨⟨rfl, rfl, rfl, id, fun _ h => h⟩, rfl, fun _ h => h⟩
+      · exact (⟨rfl, rfl, rfl, id, fun _ h => h⟩ : Keep m (m.logAct _))
 
 theorem spec_prepareScheduleSuccess (m : M) (r : Resv) : (prepareScheduleSuccess m r).Spec m := by
   unfold prepareScheduleSuccess
@@ -331,15 +320,16 @@ theorem keep_waitPendingPod (m : M) : Keep m (waitPendingPod m) := by
   unfold waitPendingPod
   split
   · exact (frame_abortWith _ _).toKeep
-  · split
-    · have hb := spec_boundByOther m (some ‹Pod›)
+  · rename_i p _
+    split
+    · have hb := spec_boundByOther m (some p)
       split
       · rename_i heq; rw [heq] at hb; exact hb
       · rename_i heq; rw [heq] at hb
         exact (Frame.toKeep hb).trans (frame_updateCondition _ _ ok5).toKeep
-    · simp only []
-      have h1 := frame_setStatus_noconds m (fun s => { s with phase := Ph.succeeded, status := CT.complete, reason := Rs.none }) (fun _ => rfl)
+    · have h1 := frame_setStatus_noconds m (fun s => { s with phase := Ph.succeeded, status := CT.complete, reason := Rs.none }) (fun _ => rfl)
       have h2 := h1.trans (frame_setConds _ ⟨CT.podScheduled, true, Rs.none, 0⟩ ok5)
+      unfold podScheduledDone
       split
       · exact (h2.trans (frame_statusUpdate _)).toKeep
       · exact h2.toKeep
@@ -354,7 +344,6 @@ theorem spec_waitBind (m : M) (r : Resv) : (waitBind m r).Spec m := by
 
 theorem spec_boundSuccess (m : M) : (boundSuccess m).Spec m := by
   unfold boundSuccess
-  simp only []
   have h1 := frame_setConds m ⟨CT.resvBound, true, Rs.none, 0⟩ ok8
   split
   · exact spec_okOr _ ((h1.trans (frame_setStatus_noconds _ (fun s => { s with podRef := true }) (fun _ => rfl))).trans (frame_statusUpdate _))
